@@ -20,6 +20,11 @@ def run(P, R, L):
     K.ord3_tables(P, R, L)
     R.clause("GRD-4", "nothing is garbage-collected under the sticky error (files the manifest lists must survive a failed install)")
     c08.grd4(P, R, L)
+    R.clause("ROLE-5", "VersionBuilder: levels are ordered by (smallest key, file number); the merge emits the smaller file first; deleted files are dropped; "
+             "the edit's deletions and additions are accumulated per level")
+    K.role5_version_builder(P, R, L)
+    R.clause("PAIR-12", "the (file, level) pairs that drive seek-triggered compactions are written together (a stale level makes a trivial move list the file at two levels)")
+    K.pair12_file_level_pairs(P, R, L)
     R.clause("OWN-8", "file numbers are unique: who writes the counter, and in which direction")
     K.own8_file_numbers(P, R, L)
     R.not_decided += ["disjointness / sortedness of a level for a concrete history (runtime assertion in VersionBuilder::maybe_add_file)",
